@@ -8,6 +8,7 @@ CONSTANTS
   MaxMods1 = 0
   MaxMods2 = 0
   NNames = 4
+  StripDunder = FALSE
   EmitMod = 1
   EmitRem = 0
 CONSTRAINT Verdict
